@@ -144,6 +144,22 @@ DESC = {
     'C16-6': ('stop check tested with `is True`', 'numpy-typed values in the simulation (numpy.bool_ comparison results)'),
     'C07-5': ('DCMotor converts the no-load speed once, to the unit of the first rotor speed it sees', 'initial speed not in rad/s and a self-locking lock (which substitutes 0 rad/s) followed by a release'),
     'C07-6': ('sin / cos / tan with a non-default frequency skip the conversion to radians', 'a load function calling angular_position.sin(frequency=...) with the position not in rad'),
+    'C04-5': ('driving torque passes unchanged through any element whose ratio is 1', 'a 1:1 gear mating (equal teeth) with efficiency < 1'),
+    'C04-6': ('Solver caches the efficiency*ratio factors of the driving side at construction', 'a mating efficiency re-declared after the Solver was built, then reset + rerun with that Solver'),
+    'C05-5': ('== / != gain a fast path for equal numbers that ignores the units', 'the same non-zero number in two different units'),
+    'C05-6': ('TimeInterval.to: same-unit copy fast path + in-place branch not refreshing the private value', 'to(sec, inplace) followed by to(sec)'),
+    'C06-5': ('UnitBase.__add__ returns other.to(unit) when the left operand is zero', 'an exactly zero AngularPosition / Time plus an Angle / TimeInterval'),
+    'C06-6': ('error branch of __sub__ tests `self < other` instead of the numeric difference', 'equal magnitudes of a strictly positive kind: returns None'),
+    'C08-5': ('solver assigns the no-load current whenever the driving torque is exactly zero', 'duty cycle commanded into the dead zone during a run'),
+    'C08-6': ('dead-zone test of the current law made strict (< instead of <=)', 'positive duty cycle bit-exactly on the dead-zone boundary'),
+    'C10-5': ('add_gear_mating writes the ratio only when the pair was not linked before', 'the same pair first joined with add_fixed_joint, then mated'),
+    'C10-6': ('pressure-angle check compares the wheel with itself when the wheel drives', 'wheel-driven pair with different pressure angles'),
+    'C11-5': ('Solver keeps an alias of powertrain.time', 'run, reset, rerun with the same Solver'),
+    'C11-6': ('TimeInterval.to(inplace=True) refreshes the unit but not the private value', 'simulation_time converted in place before run()'),
+    'C19-5': ('sign check of the no-load current became the elif of the ordering check', 'negative no-load current together with a valid maximum current'),
+    'C19-6': ('MINIMUM_TEETH_NUMBER loaded lazily (placeholder 1 until the first Lewis look-up)', 'a gear with 1..9 teeth built before any gear with module and face width'),
+    'C20-5': ('reset() clears the self-locking flag', 'build, run, reset, then read the flag or rerun'),
+    'C20-6': ('chain walk memoised per motor (lru_cache)', 'a second Powertrain built from the same motor after more declarations'),
 }
 
 
